@@ -29,7 +29,8 @@ class ThreadHarness:
     """threads: list of "kind:origin[:opt]"  kind in req | hold | early | close-pool ; opt 'w' = run before the threads start (warm-up)"""
     horizon = 200000
 
-    def __init__(self, ct, threads, max_connections=1, max_keepalive=None, granularity="line", framing="cl", server_drop=None):
+    def __init__(self, ct, threads, max_connections=1, max_keepalive=None, granularity="line", framing="cl", server_drop=None, keepalive_expiry=None):
+        self.keepalive_expiry = keepalive_expiry
         self.ct = ct
         self.threads = threads
         self.mc = max_connections
@@ -48,7 +49,23 @@ class ThreadHarness:
         w = TWorld(chooser, topo.router, granularity="line" if gran in ("pool-line", "waiter-line") else gran,
                    trace_files=POOL_ONLY if gran in ("pool-line", "waiter-line") else TRACE_FILES,
                    trace_quals=("PoolRequest.",) if gran == "waiter-line" else None)
-        pool = scen.make_pool(ct, w.backend, "sync", max_connections=self.mc, max_keepalive_connections=self.mk)
+        pool = scen.make_pool(ct, w.backend, "sync", max_connections=self.mc, max_keepalive_connections=self.mk,
+                              **({"keepalive_expiry": self.keepalive_expiry} if self.keepalive_expiry is not None else {}))
+        # what state a connection was in when the pool took it out of its list (root-cause fact for collateral failures)
+        removed_as: dict = {}
+
+        class _Rec(list):
+            def remove(self_, c):
+                try:
+                    info = c.info()
+                    state = next((p_.strip() for p_ in info.split(",") if p_.strip() in ("NEW", "ACTIVE", "IDLE", "CLOSED", "CONNECTING")), info)
+                except Exception:       # noqa
+                    state = "?"
+                for t_ in reachable_transports(c):
+                    removed_as.setdefault(t_, state)
+                list.remove(self_, c)
+        if type(pool._connections) is list:
+            pool._connections = _Rec(pool._connections)
         N = self.mc
         mon = {"max_list": 0, "max_open": 0}
         ever = []
@@ -80,9 +97,9 @@ class ThreadHarness:
             parts = ts.split(":")
             kind, origin, opts = parts[0], parts[1] if len(parts) > 1 else "a", parts[2:]
             tok = f"k{i}"
-            url = scen.url_for(ct, host=f"{origin}.example", token=tok)
+            url = scen.url_for(ct, host=f"{origin}.example", token=tok) if kind != "tick" else None
 
-            def mk(kind=kind, url=url, tok=tok):
+            def mk(kind=kind, url=url, tok=tok, origin_=origin):
                 def prog():
                     if kind == "req":
                         r = pool.request("GET", url)
@@ -98,9 +115,14 @@ class ThreadHarness:
                     if kind == "close-pool":
                         pool.close()
                         return (200, None)
+                    if kind == "tick":
+                        w.env.time += float(origin_)      # time passes (another thread's scheduling decides when)
+                        return (200, None)
                     raise ValueError(kind)
                 return prog
-            if "w" in opts:
+            if kind == "held":
+                warm.append((f"t{i}", kind, f"{tok}@{origin}", None))
+            elif "w" in opts:
                 warm.append((f"t{i}", kind, tok, mk()))
             else:
                 plan.append((f"t{i}", kind, tok))
@@ -112,7 +134,16 @@ class ThreadHarness:
         def viol(kind, msg, **x):
             ex.violations.append(Violation("C08." + kind, f"{msg} | {desc} preempted_in={w.preempted_in} switches={w.switch_log[-12:]}",
                                            dict(sig, kind=kind, **x)))
+        held_open = []
         for name, kind, tok, fn in warm:
+            if kind == "held":
+                # a response opened before the threads start and kept open while they run (its connection is ACTIVE throughout)
+                try:
+                    cm = pool.stream("GET", scen.url_for(ct, host=f"{tok.split('@')[1]}.example", token=tok.split("@")[0]))
+                    held_open.append((name, tok.split("@")[0], cm, cm.__enter__()))
+                except Exception as e:
+                    viol("warm-up", f"held response {name} could not be opened: {exc_class(e)}: {e}")
+                continue
             try:
                 r = fn()
                 if r[0] != 200 or (r[1] is not None and r[1] != b"<" + tok.encode() + b">"):
@@ -125,6 +156,15 @@ class ThreadHarness:
                     t.shutdown()
         w.run()
         results = {t.name: t.result for t in w.threads}
+        for name, tok_, cm, r_ in held_open:
+            try:
+                body_ = r_.read()
+                cm.__exit__(None, None, None)
+                if body_ != b"<" + tok_.encode() + b">":
+                    viol("cross-talk", f"held response {name} (token {tok_}) delivered {body_!r}")
+            except Exception as e:
+                viol("held-response-broken", f"a response that was open (connection ACTIVE) while other threads used the pool failed afterwards with {exc_class(e)}: {e}; "
+                     f"pool={pool!r}", exc=exc_class(e))
         if w.deadlock is not None:
             viol(w.deadlock[0], f"threads blocked forever: {w.deadlock[1]}; pool={pool!r} {pool.connections}", blocked=[b[2] for b in w.deadlock[1]] if isinstance(w.deadlock[1], list) else None)
         closing = any(k == "close-pool" for _, k, _ in plan)
@@ -141,15 +181,17 @@ class ThreadHarness:
                 site = next((f"{f.filename.rsplit('/', 1)[-1]}:{f.name}" for f in reversed(tb) if "/httpcore/" in f.filename), "?")
                 # which connection did the victim use, and which code closed it?
                 closed_by = None
+                removed_while = None
                 mine = [o for o in w.net.ledger if o.task == name and o.tr is not None]
                 if mine:
                     tr_ = mine[-1].tr
+                    removed_while = removed_as.get(tr_.id)
                     closes = [o for o in w.net.ledger if o.kind == "close" and o.tr is tr_ and o.task != name]
                     if closes:
                         ch = closes[0].closed_from or []
                         closed_by = next((c for c in ch if "connection_pool.py" in c or "_response_closed" in c or "http_proxy" in c), ch[0] if ch else None)
-                viol("collateral-failure", f"thread {name} ({kind}) failed with {exc_class(e)}: {e} raised at {site}; its connection was closed by another thread from {closed_by}",
-                     exc=exc_class(e), site=site, closed_by=closed_by)
+                viol("collateral-failure", f"thread {name} ({kind}) failed with {exc_class(e)}: {e} raised at {site}; its connection was closed by another thread from {closed_by} (state when the pool took it out of its list: {removed_while})",
+                     exc=exc_class(e), site=site, closed_by=closed_by, removed_while=removed_while)
             else:
                 status, body = r[1]
                 if kind in ("req", "hold") and (status != 200 or body != b"<" + tok.encode() + b">"):
@@ -192,6 +234,9 @@ def scenarios(tier):
     """-> list of (spec, bound)"""
     quick = tier == "quick"
     out = []
+    # time passes (keep-alive deadline of the previous idle period) while a response is open on a re-used connection and
+    # other threads make the pool run its housekeeping
+    out.append((S("h11", ["req:a:w", "held:a", "tick:6", "req:b"], max_connections=2, keepalive_expiry=5.0, granularity="sync"), 2))
     L1, L2 = (1, 2)
     line_bound = 1 if quick else 2
     sync_bound = 2 if quick else 3
